@@ -34,6 +34,8 @@ func main() {
 	g.pinnedKMap()
 	g.pinnedNMap()
 	g.pinnedVariadic()
+	g.sweepEqWrite()
+	g.sweepShare()
 	g.sweepDelElem()
 	g.pinnedCallback()
 	g.fieldWriteCase(0, &gty{rt: kinds[0].rt, coq: "(TNum KI)", kind: "num", nk: 0}, jsString("eighty"))
